@@ -30,7 +30,10 @@ def gen_script(rng, n):
         return ",".join(toks)
     nbad = 1 if mode < 0.85 else rng.randrange(2, 5)
     for _ in range(nbad):
-        toks[rng.randrange(0, n)] = rng.choice(["f", "f", "f", "e"])
+        i = rng.randrange(0, n)
+        toks[i] = rng.choice(["f", "f", "f", "e", "e"])
+        if toks[i] == "e" and i + 1 < n and rng.random() < 0.5:
+            toks[i + 1] = rng.choice(["e", "f"])      # e.g. console READ->0 followed by NEXT->0 / NEXT->fail
     return ",".join(toks)
 
 
@@ -72,7 +75,7 @@ def gen_case(rng, maxn=10):
 
 
 EXH_ALPHA = ["p file n1 s a,bc", "p apfile n1 s q", "pf file n1 s ab", "pf apfile n1 s c", "p pipe n1 s a", "p rwpipe n1 s bc",
-             "p console - s a", "g rwpipe n1", "g file n1", "c n1", "c n1 r", "c n1 w", "ffn n1", "ffn -", "ff", "no"]
+             "p console - s a", "g rwpipe n1", "g file n1", "g console -", "c n1", "c n1 r", "c n1 w", "ffn n1", "ffn -", "ff", "no"]
 EXH_SCRIPTS = ["-", "a1,a1,a1,a1,a1,a1,a1,a1,a1,a1,a1,a1,a1,a1,a1,a1,a1,a1,a1,a1,a1,a1,a1,a1"]
 
 
@@ -91,6 +94,15 @@ def exhaustive_cases(depth, fault_depth):
                 for pos in range(0, 4 * d + 2):
                     for bad in ("f", "e"):
                         out.append(["case %d $ %s" % (tol, ",".join(["a2"] * pos + [bad]))] + list(seq) + ["end"])
+    # console getline at the end of a stream: READ->0 is followed by NEXT; answer that NEXT with 0 / failure / ok-then-0-again
+    for d in range(1, min(fault_depth, 2) + 1):
+        for seq in itertools.product(EXH_ALPHA, repeat=d):
+            if "g console -" not in seq:
+                continue
+            for tol in (0, 1):
+                for pos in range(0, 4 * d + 2):
+                    for tail in (["e", "e"], ["e", "f"], ["e", "A", "e", "A", "e", "e"], ["e", "a1", "e", "f"]):
+                        out.append(["case %d $ %s" % (tol, ",".join(["a2"] * pos + tail))] + list(seq) + ["end"])
     return out
 
 
@@ -409,8 +421,11 @@ def evaluate(exe, drv, cases, stats=None, nontriv=None):
             break
         m = re.search(r"(ERROR: \w+Sanitizer[^\n]*|runtime error:[^\n]*)", cerr)
         frames = " | ".join(re.findall(r"#\d+ 0x[0-9a-f]+ in (\S+ [^\n]*)", cerr)[:5])
+        detail = m.group(1) if m else cerr[-300:].replace("\n", " | ")
+        if status == "HANG":
+            detail = "it did not return: more than 5000 handler calls in one case or no progress for the watchdog time"
         probs.append((todo[j], "impl", "crash-" + status.split("(")[0], "the interpreter did not survive this case (%s): %s %s" % (
-            status, m.group(1) if m else cerr[-300:].replace("\n", " | "), frames),
+            status, detail, frames),
                       co[j] if j < len(co) else [], []))
         couts.append(None)
         todo = todo[j + 1:]
@@ -427,6 +442,8 @@ def evaluate(exe, drv, cases, stats=None, nontriv=None):
                 m = H_RE.match(l)
                 if m:
                     stats["ev_" + m.group(2)] = stats.get("ev_" + m.group(2), 0) + 1
+                    if m.group(2) == "NEXT" and m.group(5) == "rd":     # console getline moving to the next input stream
+                        stats["ev_NEXT_in_read_" + m.group(7)] = stats.get("ev_NEXT_in_read_" + m.group(7), 0) + 1
                     r = m.group(7)
                     r = r if not r.isdigit() else "accept"
                     stats["reply_" + r] = stats.get("reply_" + r, 0) + 1
@@ -548,7 +565,7 @@ def run(ctx):
             ctx.problem("corr", what2, text, found_input=False)
     samples = [" ; ".join(c) for c in (cases[ncorpus:ncorpus + 1] + cases[-3:])]
     return C.finish(ctx, [proof], evaluations, len(nontriv),
-                    "cases = corpus + all statement sequences of length<=%d over a 16-statement alphabet x {tolerant,not} x {accept-all, one-char-at-a-time} + "
+                    "cases = corpus + all statement sequences of length<=%d over a 17-statement alphabet x {tolerant,not} x {accept-all, one-char-at-a-time} + "
                     "all sequences of length<=%d with a failure/eof injected at every handler call position + seeded random programs (<=10 I/O statements over 3 names x 5 output kinds x 4 input kinds, "
                     "random short-write/eof/fail scripts); each case runs IN-PROCESS in the real interpreter with logging handlers; (1) oracle: clauses (a)-(d) + failure surfacing evaluated on the REAL handler log "
                     "(and sanitizer/signal/hang), independent of the model; (2) the log, every chain dump (type/mask/mode/name/rwcstate/eof/eos flags) and every statement value are compared with the Lean model; "
@@ -556,7 +573,9 @@ def run(ctx):
                     samples, extra_cov=dict(distribution=stats, cases=len(cases), corpus=ncorpus, exhaustive=nexh, random=nrand),
                     trusted=["rio.c write side, run_print/run_printf, fnc_close/fnc_fflush modelled by hand in HawkModel/Rio.lean; read side only as far as it shares the chain (one READ per getline, handler returns whole records)",
                              "handlers of std.c (sio/tio/pio buffering, real pipes and files) are replaced by logging handlers and not covered"],
-                    assumptions=["a handler never claims to have accepted more characters than offered", "a handler answering 0 to WRITE means end of stream (designed: later prints to it are dropped silently)",
+                    assumptions=["a handler never claims to have accepted more characters than offered",
+                                 "a failing handler does not set HAWK_ENOIMPL (a NEXT failure with ENOIMPL during a console read counts as 'no more streams' in the C; not modelled)",
+                                 "the console read loop READ->0, NEXT->1, READ->0, ... is unbounded in the C; the model bounds it by fuel (driver: 2 x script length + 8, never exhausted because every turn consumes a scripted reply) and proves the result independent of the fuel once the read returns", "a handler answering 0 to WRITE means end of stream (designed: later prints to it are dropped silently)",
                                  "BEGIN-only programs; stream names are non-empty NUL-free strings; OFS is one space"])
 
 
